@@ -111,20 +111,25 @@ def c05(rng, index, tier):
             late = rng.sample(nets.split(), rng.randint(1, max(1, len(nets.split()) - 1)))
             case["start_delays"] = {worker: rng.choice([1.0, 5.0, 20.0, 60.0, 150.0]) for worker in late}
         return case
-    if case.get("suite_spec") and rng.random() < 0.25:
+    if case.get("suite_spec") and rng.random() < 0.35:
         # a requested test that is also the (removable) setup of another requested test, tried by several workers at once
         spec = suitegen.draw_spec(rng, multi_producer_share=1.0)
         spec["groups"][0]["variants"][0]["removable"] = True
         spec["groups"][0]["variants"][1]["removable"] = rng.random() < 0.5
+        if rng.random() < 0.5:
+            # one producer only: the dependant is not cloned
+            spec["groups"][0]["variants"] = spec["groups"][0]["variants"][:1]
         case["suite_spec"] = spec
         case["vm_strs"] = {vm: f"only {d['variants'][0]}\n" for vm, d in spec["vms"].items()}
         case["restriction"] = rng.choice(["leaves", "only leaves\nonly mp1,tdep\n"])
         nets, kind = travgen.draw_nets(rng, "lxc", max_workers=3)
+        if len(nets.split()) < 2 or rng.random() < 0.5:
+            nets = " ".join(rng.sample(["net1", "net2", "net4"], 2))
         case["nets"], case["worker_kind"] = nets, kind
-        case["params"] = {"shared_pool": "/mnt/local/images/shared", "max_tries": "2", "stop_status": "pass"}
+        case["params"] = {"shared_pool": "/mnt/local/images/shared", "max_tries": rng.choice(["2", "2", "3"]), "stop_status": "pass"}
         if rng.random() < 0.3:
             case["params"]["pool_scope"] = "own swarm shared"
-        case["plan"] = {"default_status": "PASS", "dur_seed": index, "dur_mode": rng.choice(["short", "heavy", "tied"]), "by_class": {}, "withhold": []}
+        case["plan"] = {"default_status": "PASS", "dur_seed": index, "dur_mode": rng.choice(["short", "heavy", "heavy"]), "by_class": {}, "withhold": []}
         case["store"], case["population"], case["eager"] = {"states": {}, "roots": {}}, "empty", False
         case.pop("interrupt_at", None)
         return case
@@ -199,6 +204,27 @@ def c08(rng, index, tier):
 
 
 def c10(rng, index, tier):
+    if rng.random() < 0.2:
+        # few tests shared by two or three workers that try them at the same time, with outcome sequences that hit the stop set or
+        # leave the rerun set on some try but not on the latest one
+        spec = suitegen.draw_fan_spec(rng)
+        for setup in spec["setups"]:
+            setup["removable"] = False
+        spec["leaves"] = spec["leaves"][:rng.randint(1, 3)]
+        nets = " ".join(rng.sample(["net1", "net2", "net4"], rng.randint(2, 3)))
+        statuses = ["FAIL", "PASS", "ERROR", "WARN"]
+        params = {"shared_pool": "/mnt/local/images/shared", "max_tries": str(rng.choice([3, 3, 4]))}
+        if rng.random() < 0.6:
+            params["stop_status"] = " ".join(s.lower() for s in rng.sample(statuses, rng.randint(1, 2)))
+        else:
+            params["rerun_status"] = " ".join(s.lower() for s in rng.sample(statuses, rng.randint(1, 3)))
+        plan = {"default_status": "PASS", "dur_seed": index, "dur_mode": rng.choice(["tied", "short", "heavy"]), "by_class": {}, "withhold": []}
+        for cls in [f"internal.automated.{spec['setups'][0]['name']}"] + [leaf["name"] for leaf in spec["leaves"]]:
+            if rng.random() < 0.8:
+                plan["by_class"][f"re:^{cls}(\\.|$)"] = [rng.choice(statuses) for _ in range(rng.randint(2, 4))]
+        return {"suite_spec": spec, "restriction": "leaves", "vm_strs": {"vm1": "only A1\n"}, "nets": nets, "eager": rng.random() < 0.3,
+                "params": params, "plan": plan, "population": "empty", "store": {"states": {}, "roots": {}}, "suite": "generated",
+                "worker_kind": "lxc"}
     case = travgen.draw_case(rng, "C10", shipped_share(tier), index)
     case["population"] = "empty"
     case["store"] = {"states": {}, "roots": {}}
